@@ -98,6 +98,7 @@ def annotate(workdir, repo=REPO):
         overlay.Rule("ghost:run_until", r"for \(; i < max_idx; i\+\+\) \{(?P<at>)", " VF_G_RU(i);", count=2),
         overlay.Rule("ghost:run", r"(?P<at>)[ \t]*hash = hash_fn\(state, hash, buffer\[i\], state->history\[i\]\);", "                VF_G_RUN(i);\n"),
         overlay.nth_loop_rule("_rolling_hash2_reset", r"for \(i = 0; i < w; i\+\+\) \{(?P<at>)", "VF_G_RESET(i);", name="ghost:reset"),
+        overlay.nth_loop_rule("_rolling_hash2_reset", r"for \(i = 0; i < w; i\+\+\)(?P<at>) \{", "VF_L_RESET", name="loop:reset"),
         # the piecewise scan loop of _rolling_hash2_run (fix 1bd20b9)
         overlay.nth_loop_rule("_rolling_hash2_run", r"for \(;;\)(?P<at>) \{", "VF_L_RUN", name="loop:run"),
         overlay.Rule("ghost:base", r"(?P<at>)[ \t]*hash = _rolling_hash2_run_until\(&i, n, ", "                g_base = base; /* ghost */\n"),
@@ -130,7 +131,7 @@ def jobs(workdir, repo=REPO):
             unwind=260, checks=["--bounds-check", "--pointer-check"], expect_classes=["postcondition"], meta=dict(meta, cost=30)),
         Job("rolling/run_until_base", [path], entry="vf_h_run_until", enforce="_rolling_hash2_run_until_base", loop_contracts=True,
             timeout=600, expect_classes=["loop_invariant_step", "postcondition"], meta=dict(meta, cost=100), mem_gb=16, **smt, **small),
-        Job("rolling/reset", [path], entry="vf_h_reset", enforce="_rolling_hash2_reset", replace=["memcpy"], timeout=900,
+        Job("rolling/reset", [path], entry="vf_h_reset", enforce="_rolling_hash2_reset", replace=["memcpy"], timeout=900, loop_contracts=True,
             mem_gb=16, expect_classes=["postcondition"], meta=dict(meta, cost=100),
             **dict(smt, solvers=["minisat:30", "cadical:700", "z3:60", "cvc5:90", "minisat"]), **small),
         Job("rolling/run", [path], entry="vf_h_run", enforce="_rolling_hash2_run", replace=["_rolling_hash2_run_until", "memcpy", "memmove"],
